@@ -189,7 +189,7 @@ func c07Tokens() []string {
 	longL := strings.Repeat("x", 100000)
 	return []string{"2020-01-30", "2020-13-45", "open", "close", "balance", "price", "include", "@performance(USD)",
 		"@accrue monthly 2020-01-01 2020-03-31 Assets:X", "@accrue", "Assets:Bank", "Expenses:Füd", "$macro", "100", "-1.5", "CHF",
-		`"desc"`, "\"multi\nline\"", `"unterminated`, "\n", "\r\n", "\t", "# c", "// c", "* h", "@", ".", long, longL}
+		`"desc"`, "\"multi\nline\"", `"unterminated`, "\n", "\r\n", "\t", "# c", "// c", "* h", "@", ".", "\x00", "\xff\xfe", long, longL}
 }
 
 func c07Corpus() []string {
